@@ -33,6 +33,8 @@ CheckGP(e) ==
   ELSE IF e.hull.kind # "poly" THEN "hull-kind"
   ELSE IF ~e.hvalid THEN "hull-invalid"
   ELSE IF \E p \in P : LocPoly(<<hp>>, H(p)) = "E" THEN "hull-not-covering"
+  ELSE IF e.rects /\ e.ra.kind = "poly" /\ Len(e.ra.c) # 5 THEN "area-rect-ring"
+  ELSE IF e.rects /\ e.rw.kind = "poly" /\ Len(e.rw.c) # 5 THEN "width-rect-ring"
   ELSE IF e.rects /\ e.ra.kind = "poly" /\ ~RectCovers(e.ra.c, P) THEN "area-rect-not-covering"
   ELSE IF e.rects /\ e.rw.kind = "poly" /\ ~RectCovers(e.rw.c, P) THEN "width-rect-not-covering"
   ELSE "ok"
